@@ -89,7 +89,177 @@ def h_long(timeout=200, part=None, **kw):
                          timeout, concretize=conc, part=part)
 
 
+# ------------------------------------------------------------------------------------------ H3 end to end: file system effects and audit events of an export
+E2E_NAMES = ["Im0", "../up", "/abs", "a/b", "..", "x\0y", "\\\\srv\\share", "C:\\x", "seed.txt", "L" * 300]
+E2E_KINDS = ["gray8", "rgb8", "bit1", "gray4", "cmyk8", "dct", "flate-gray8", "ahx-cmyk", "indexed", "inline"]
+E2E_ENCODINGS = [None, "../../../secret", "/etc/passwd", "H\0x", "Identity-H/../x"]
+_AUDIT = {"on": False, "events": []}
+
+
+def _audit_hook(event, args):
+    if _AUDIT["on"] and event in ("open", "os.mkdir", "os.remove", "os.rename", "os.rmdir", "os.symlink", "os.link", "os.truncate", "os.chmod", "shutil.copyfile", "shutil.move"):
+        _AUDIT["events"].append((event, args))
+
+
+def _pdf_name(s):
+    return b"/" + b"".join(bytes([c]) if 33 <= c <= 126 and c not in b"#/()<>[]{}%" else b"#%02x" % c for c in s.encode("latin-1"))
+
+
+def _e2e_image(kind):
+    from lib.pdfgen import Stream
+    import zlib
+    d = {"Type": "XObject", "Subtype": "Image", "Width": 2, "Height": 2, "BitsPerComponent": 8, "ColorSpace": "DeviceGray"}
+    data = bytes([10, 20, 30, 40])
+    if kind == "rgb8":
+        d["ColorSpace"], data = "DeviceRGB", bytes(range(12))
+    elif kind == "bit1":
+        d["BitsPerComponent"], data = 1, b"\x80\x40"
+    elif kind == "gray4":
+        d["BitsPerComponent"], data = 4, b"\x12\x34"
+    elif kind == "cmyk8":
+        d["ColorSpace"], data = "DeviceCMYK", bytes(range(16))
+    elif kind == "dct":
+        d["Filter"], data = "DCTDecode", b"\xff\xd8not-a-real-jpeg\xff\xd9"
+    elif kind == "flate-gray8":
+        d["Filter"], data = "FlateDecode", zlib.compress(data)
+    elif kind == "ahx-cmyk":
+        d["ColorSpace"], d["Filter"], data = "DeviceCMYK", "ASCIIHexDecode", bytes(range(16)).hex().encode() + b">"
+    elif kind == "indexed":
+        from lib.pdfgen import Raw
+        d["ColorSpace"], data = Raw(b"[/Indexed /DeviceRGB 1 <000000ffffff>]"), bytes([0, 1, 1, 0])
+    return Stream(d, data)
+
+
+def _e2e_doc(images, encoding):
+    """one page showing a word in a Type0 font whose /Encoding is the given name (None: Identity-H) and painting the given images [(name, kind)]"""
+    from lib.pdfgen import Ref, Raw, Stream, build
+    objs = {1: {"Type": "Catalog", "Pages": Ref(2)}, 2: {"Type": "Pages", "Kids": [Ref(4)], "Count": 1}}
+    enc = _pdf_name(encoding) if encoding is not None else b"/Identity-H"
+    objs[3] = Raw(b"<< /Type /Font /Subtype /Type0 /BaseFont /F /Encoding " + enc + b" /DescendantFonts [6 0 R] >>")
+    objs[6] = {"Type": "Font", "Subtype": "CIDFontType2", "BaseFont": "F", "CIDSystemInfo": {"Registry": b"Adobe", "Ordering": b"../../x", "Supplement": 0}, "DW": 500,
+               "FontDescriptor": {"Type": "FontDescriptor", "FontName": "F", "Flags": 4, "FontBBox": [0, 0, 1000, 1000], "ItalicAngle": 0, "Ascent": 800, "Descent": -200, "CapHeight": 700, "StemV": 80}}
+    content = b"BT /F1 10 Tf 10 100 Td <00410042> Tj ET "
+    xo = b"<< "
+    n = 10
+    for i, (name, kind) in enumerate(images):
+        if kind == "inline":
+            content += b"q 10 0 0 10 %d 10 cm BI /W 2 /H 2 /BPC 8 /CS /G ID \x01\x02\x03\x04 EI Q " % (20 * i)
+            continue
+        objs[n] = _e2e_image(kind)
+        xo += _pdf_name(name) + b" %d 0 R " % n
+        content += b"q 10 0 0 10 %d 10 cm " % (20 * i) + _pdf_name(name) + b" Do Q "
+        n += 1
+    objs[4] = {"Type": "Page", "Parent": Ref(2), "MediaBox": [0, 0, 200, 200], "Contents": Ref(5), "Resources": {"Font": {"F1": Ref(3)}, "XObject": Raw(xo + b">>")}}
+    objs[5] = Stream({}, content)
+    return build(objs)
+
+
+def _tree(root):
+    import os, hashlib
+    out = {}
+    for r, ds, fs in os.walk(root):
+        for f in fs:
+            q = os.path.join(r, f)
+            out[os.path.relpath(q, root)] = hashlib.sha1(open(q, "rb").read()).hexdigest()
+        for d in ds:
+            out[os.path.relpath(os.path.join(r, d), root) + "/"] = "dir"
+    return out
+
+
+def _e2e_check(sel):
+    """real extract_text_to_fp with output_dir set, run with the working directory, the output directory and its parent all pre-seeded with files: afterwards nothing outside the output directory was
+    created, changed or removed, nothing inside it was changed, and every open() seen by the interpreter's audit hook is a read of the library's own resources or a write inside the output directory"""
+    import io, os, shutil, sys, tempfile
+    import pdfminer
+    from pdfminer.high_level import extract_text_to_fp
+    images = [(E2E_NAMES[n], E2E_KINDS[k]) for n, k in sel["images"]]
+    data = _e2e_doc(images, E2E_ENCODINGS[sel["encoding"]])
+    base = tempfile.mkdtemp(prefix="verif-c15-")
+    cwd0 = os.getcwd()
+    if not _AUDIT.get("installed"):
+        sys.addaudithook(_audit_hook)
+        _AUDIT["installed"] = True
+    try:
+        parent = os.path.join(base, "parent")
+        outdir = os.path.join(parent, "out")
+        cwd = os.path.join(base, "cwd")
+        os.makedirs(outdir)
+        os.makedirs(cwd)
+        seeds = ["Im0.bmp", "Im0.jpg", "Im0.8.2x2.img", "Im0.4.2x2.img", "up.bmp", "up.jpg", "abs.bmp", "b.bmp", "x.bmp", "seed.txt", "seed.txt.bmp", "image.bmp", "y.bmp", "xy.bmp", "share.bmp", "secret", "x"]
+        for d in (parent, outdir, cwd, base):
+            for f in seeds:
+                open(os.path.join(d, f), "wb").write(b"precious " + f.encode())
+        before = _tree(base)
+        os.chdir(cwd)
+        _AUDIT["events"] = []
+        _AUDIT["on"] = True
+        err = None
+        try:
+            extract_text_to_fp(io.BytesIO(data), io.StringIO(), output_dir=outdir)
+        except Exception as e:
+            err = e
+        finally:
+            _AUDIT["on"] = False
+            os.chdir(cwd0)
+        after = _tree(base)
+        desc = "document with images %r and font /Encoding %r, exported with output_dir=<parent>/out from another working directory" % (images, E2E_ENCODINGS[sel["encoding"]])
+        rel_out = os.path.relpath(outdir, base)
+        for k in sorted(set(before) | set(after)):
+            inside = k.startswith(rel_out + os.sep)
+            if k in before and before[k] != after.get(k):
+                return "%s: the existing file %s was %s" % (desc, k, "removed" if k not in after else "overwritten")
+            if k not in before and not inside:
+                return "%s: %s was created outside the output directory" % (desc, k)
+        allowed_read = [os.path.dirname(os.path.abspath(pdfminer.__file__)), sys.prefix, sys.base_prefix, "/usr/lib", "/usr/share/zoneinfo", "/venv", "/verif/.venv"]
+        for ev, args in _AUDIT["events"]:
+            if ev != "open":
+                q = os.path.abspath(os.path.join(cwd, os.fsdecode(args[0]))) if args and isinstance(args[0], (str, bytes)) else None
+                if ev == "os.mkdir" and q and (q == outdir or q.startswith(outdir + os.sep)):
+                    continue
+                return "%s: audit event %s%r" % (desc, ev, args[:2])
+            path, mode = args[0], args[1]
+            if not isinstance(path, (str, bytes)):
+                continue                        # a file descriptor, not a name
+            q = os.path.abspath(os.path.join(cwd, os.fsdecode(path)))
+            writing = isinstance(mode, str) and any(c in mode for c in "wax+")
+            if writing:
+                if os.path.dirname(q) != outdir:
+                    return "%s: %r opened for writing (mode %r): not a file directly inside the output directory" % (desc, path, mode)
+            elif not any(q == a or q.startswith(a.rstrip(os.sep) + os.sep) for a in allowed_read) and not q.startswith(outdir + os.sep):
+                return "%s: %r opened for reading: neither the library's resources nor the output directory" % (desc, path)
+        if err is not None and not isinstance(err, (OSError, ImportError)):
+            from pdfminer.pdfexceptions import PDFException
+            from pdfminer.psexceptions import PSException
+            if not isinstance(err, (PDFException, PSException)):
+                return "%s: raised %r" % (desc, err)
+        return None
+    finally:
+        os.chdir(cwd0)
+        shutil.rmtree(base, ignore_errors=True)
+
+
+def h3_export(nimg=2, timeout=300, part=None, names=None, **kw):
+    import pdfminer.image as im
+    import pdfminer.cmapdb as cm
+
+    def fn(ex):
+        nm = names or list(range(len(E2E_NAMES)))
+        sel = {"encoding": ex.choice(len(E2E_ENCODINGS), "enc"),
+               "images": [(nm[ex.choice(len(nm), "name%d" % i)], ex.choice(len(E2E_KINDS), "kind%d" % i)) for i in range(nimg)]}
+        r = _e2e_check(sel)
+        ex.require(r is None, r or "", function="e2e", args=[sel])
+
+    def conc(m, info):
+        return {"function": "e2e", "args": info["args"], "kwargs": {}}
+    return core.run_symx("H3_export", fn, [im.ImageWriter.export_image, im.ImageWriter._create_unique_image_name, im.ImageWriter._save_raw, im.ImageWriter._save_bmp, im.ImageWriter._save_jpeg, cm.CMapDB._load_data],
+                         {"document": "one page, %d images, names from %r, kinds %r, Type0 font /Encoding from %r" % (nimg, [E2E_NAMES[i][:12] for i in (names or range(len(E2E_NAMES)))], E2E_KINDS, E2E_ENCODINGS),
+                          "file system": "real: working directory, output directory and its parent pre-seeded with files of the candidate names", "observed": "directory trees before/after, sys.addaudithook open/os.* events"},
+                         timeout, concretize=conc, part=part)
+
+
 def replay(harness, inp):
+    if inp.get("function") == "e2e":
+        return _e2e_check(inp["args"][0])
     mod = importlib.import_module("harness.ch_C15")
     f = getattr(mod, inp["function"])
     ok = f(*inp["args"], **inp["kwargs"])
@@ -109,5 +279,7 @@ def jobs(tier):
         J.append(Job("H1_cmap:alphabet:%d" % k, "h_alpha", {"func": "cmap_confined", "maxlen": ml, "part": [k, 4, 7]}, 300 if tier == "quick" else 1800, "H1_cmap"))
         J.append(Job("H2_imagename:alphabet:%d" % k, "h_alpha", {"func": "image_name_confined", "maxlen": ml, "part": [k, 4, 7]}, 300 if tier == "quick" else 1800, "H2_imagename"))
     J.append(Job("H2_imagename:long", "h_long", {}, 300, "H2_imagename"))
+    for k in range(4):
+        J.append(Job("H3_export:%d" % k, "h3_export", {"nimg": 1 if tier == "quick" else 2, "part": [k, 4, 4]}, 300 if tier == "quick" else 1800, "H3_export"))
     J.append(Job("H1_cmap:sibling", "h_alpha", {"func": "cmap_confined_sibling", "maxlen": 7 if tier == "quick" else 9, "alpha": "./a"}, 300 if tier == "quick" else 1800, "H1_cmap"))
     return J
